@@ -4,9 +4,10 @@ import Verif.Model.Lang3.Events
 Reader for the S-expression form of a program of the event calculus, written by
 `harness/internal/l3sx/events.go` (`EProgram.SX`):
 
-  prog ::= (evprog (events event*) (resources res*) (funs fun*) (main stmt*))
+  prog ::= (evprog (events event*) (ifaces iface*) (resources res*) (funs fun*) (main stmt*))
+  iface ::= (iface (conforms N*) (destroy (dp NAME ty dexp)*)|(nodestroy))
   event ::= (event ID (p NAME ty)*)
-  res  ::= (res (fields (p NAME ty)*) (inner N)|(noinner) (destroy (dp NAME ty dexp)*)|(nodestroy))
+  res  ::= (res (fields (p NAME ty)*) (conforms N*) (inner N)|(noinner) (destroy (dp NAME ty dexp)*)|(nodestroy))
   dexp ::= (lit val) | (field N) | (innerField N)
   fun  ::= (fun (pre emit*) (body emit*) (post emit*))
   emit ::= (emit EV exp*)
@@ -75,19 +76,28 @@ def readDExp : SX → Option DExp
   | .list [.atom "innerField", .atom f] => DExp.innerField <$> f.toNat?
   | _ => none
 
+def readDestroy : SX → Option (Option (List DParam))
+  | .list [.atom "nodestroy"] => some none
+  | .list (.atom "destroy" :: dps) => some <$> dps.mapM fun
+    | .list [.atom "dp", .atom n, t, de] => do some ⟨n, ← readTy t, ← readDExp de⟩
+    | _ => none
+  | _ => none
+
+def readConforms : SX → Option (List Nat)
+  | .list (.atom "conforms" :: xs) => xs.mapM fun | .atom n => n.toNat? | _ => none
+  | _ => none
+
+def readIface : SX → Option IfaceDecl
+  | .list [.atom "iface", cs, d] => do some ⟨← readConforms cs, ← readDestroy d⟩
+  | _ => none
+
 def readRes : SX → Option ResDecl
-  | .list [.atom "res", .list (.atom "fields" :: fs), inner, destroy] => do
+  | .list [.atom "res", .list (.atom "fields" :: fs), cs, inner, destroy] => do
     let i ← match inner with
       | .list [.atom "noinner"] => some none
       | .list [.atom "inner", .atom n] => some <$> n.toNat?
       | _ => none
-    let d ← match destroy with
-      | .list [.atom "nodestroy"] => some none
-      | .list (.atom "destroy" :: dps) => some <$> dps.mapM fun
-        | .list [.atom "dp", .atom n, t, de] => do some ⟨n, ← readTy t, ← readDExp de⟩
-        | _ => none
-      | _ => none
-    some ⟨← fs.mapM readParam, i, d⟩
+    some ⟨← fs.mapM readParam, i, ← readDestroy destroy, ← readConforms cs⟩
   | _ => none
 
 def readEmits (head : String) : SX → Option (List EmitSpec)
@@ -95,8 +105,8 @@ def readEmits (head : String) : SX → Option (List EmitSpec)
   | _ => none
 
 def readProgramSX : SX → Option Program
-  | .list [.atom "evprog", .list (.atom "events" :: evs), .list (.atom "resources" :: rs),
-      .list (.atom "funs" :: fs), .list (.atom "main" :: ss)] => do
+  | .list [.atom "evprog", .list (.atom "events" :: evs), .list (.atom "ifaces" :: ifs),
+      .list (.atom "resources" :: rs), .list (.atom "funs" :: fs), .list (.atom "main" :: ss)] => do
     let events ← evs.mapM fun
       | .list (.atom "event" :: .atom id :: ps) => do some (EventDecl.mk id (← ps.mapM readParam))
       | _ => none
@@ -104,7 +114,7 @@ def readProgramSX : SX → Option Program
       | .list [.atom "fun", pre, body, post] => do
         some (FunDecl.mk (← readEmits "pre" pre) (← readEmits "body" body) (← readEmits "post" post))
       | _ => none
-    some ⟨events, ← rs.mapM readRes, funs, ← ss.mapM readStmt⟩
+    some ⟨events, ← rs.mapM readRes, funs, ← ss.mapM readStmt, ← ifs.mapM readIface⟩
   | _ => none
 
 def readProgram (s : String) : Option Program := SX.parse s >>= readProgramSX
